@@ -23,6 +23,7 @@ def run3d(model, kw, axis):
 
 
 def check(rep, model, tier):
+    _doc_defaults(rep, model)
     rep.rule('IDX-FLAT', 'axis=(0,1): entry [i][j] reads flat result i*n1 + j (coefficient of the outer loop variable == extent of the inner loop, constant 0), from a '
                          'container with distinct rows, for i < n0, j < n1')
     rep.rule('ORDER-C', 'axis=(0,1): signals are flattened by reshape(n0*n1, n2) and a 2-D option list by flatten(), both in C order; the flat arrays go to compute_features_2d(axis=0) '
@@ -160,3 +161,8 @@ def transposed(res, pres):
     if not ok:
         return False, why
     return True, 'zip(*list(pool result)) -> list per column'
+
+
+def _doc_defaults(rep, model):
+    from . import common as _c
+    _c.doc_defaults(rep, model, ['compute_features_3d'])
